@@ -72,22 +72,25 @@ ALL_PAIRS = list(itertools.product(R.KINDS, R.KINDS))
 def _lattice(tier):
     """(levels, main lattice, sub-lattice for 'unbalanced' family members)."""
     if tier == 'quick':
-        main = dict(starts=['lower', 'mixed'], splits=R.SPLITS, asy=['default'], versions=R.VERSIONS,
+        main = dict(starts={1: ['lower', 'mixed'], 2: ['lower', 'mixed'], 3: ['mixed'], 5: ['mixed']},
+                    splits=R.SPLITS, asy=['default'], versions=R.VERSIONS,
                     pairs={1: ROT_PAIRS, 2: ROT_PAIRS, 3: ROT_PAIRS + DIAG_PAIRS, 5: ROT_PAIRS})
-        sub = dict(starts=['mixed'], splits=['one_array'], asy=['default'], versions=R.VERSIONS,
+        sub = dict(starts={n: ['mixed'] for n in (1, 2, 3, 5)}, splits=['one_array'], asy=['default'],
+                   versions=R.VERSIONS,
                    pairs={n: [('pervar', 'pervar')] for n in (1, 2, 3, 5)})
         return [('all', [1, 2, 3, 5])], main, sub
-    main = dict(starts=R.STARTS, splits=R.SPLITS, asy=sorted(R.ASY), versions=R.VERSIONS,
-                pairs={n: ALL_PAIRS for n in (1, 2, 3, 5, 8)})
-    sub = dict(starts=['lower', 'mixed'], splits=R.SPLITS, asy=sorted(R.ASY), versions=R.VERSIONS,
-               pairs={n: DIAG_PAIRS for n in (1, 2, 3, 5, 8)})
+    ns = (1, 2, 3, 5, 8)
+    main = dict(starts={n: R.STARTS for n in ns}, splits=R.SPLITS, asy=sorted(R.ASY), versions=R.VERSIONS,
+                pairs={n: ALL_PAIRS for n in ns})
+    sub = dict(starts={n: ['lower', 'mixed'] for n in ns}, splits=R.SPLITS, asy=sorted(R.ASY), versions=R.VERSIONS,
+               pairs={n: DIAG_PAIRS for n in ns})
     return [('n<=2', [1, 2]), ('n=3', [3]), ('n=5', [5]), ('n=8', [8])], main, sub
 
 
 def bounds(tier, seed):
     levels, main, sub = _lattice(tier)
-    fmt = lambda d: {k: ({str(n): ['/'.join(p) for p in v] for n, v in d[k].items()} if k == 'pairs' else d[k])
-                     for k in d}
+    fmt = lambda d: {k: ({str(n): ['/'.join(p) for p in v] for n, v in d[k].items()} if k == 'pairs' else
+                         {str(n): v for n, v in d[k].items()} if k == 'starts' else d[k]) for k in d}
     return {'n': [n for _, ns in levels for n in ns], 'levels': [nm for nm, _ in levels],
             'objectives': R.OBJECTIVES, 'constraints': R.CONSTRAINTS, 'maxit': MAXIT, 'tolx': TOLX,
             'table': seed % R.NTABLES, 'main_lattice (pairs = bounds kind/move kind per n)': fmt(main),
@@ -122,7 +125,7 @@ def generate(tier, seed):
                 for split in lat['splits']:
                     if R.split_sizes(n, split) is None:
                         continue
-                    for (bk, mk), start, ver, asy in itertools.product(lat['pairs'][n], lat['starts'],
+                    for (bk, mk), start, ver, asy in itertools.product(lat['pairs'][n], lat['starts'][n],
                                                                      lat['versions'], lat['asy']):
                         yield {'n': n, 'split': split, 'obj': obj, 'cons': cons, 'bounds': bk, 'move': mk,
                                'start': start, 'version': ver, 'asy': asy, 'table': table}
